@@ -42,7 +42,7 @@ def obligations(tier, seed):
                     add(op=o, sv=sv, allow=1, lens=(len(cv), 2), cvals={'0': cv})
                     add(op=o, sv=sv, allow=1, lens=(5, len(cv)), cvals={'1': cv})
                 for cv in OTHER:
-                    for L0 in ((0, 1, 2) if tier == 'quick' else (0, 1, 2, 3)): add(op=o, sv=sv, allow=1, lens=(L0, len(cv)), cvals={'1': cv})
+                    for L0 in ((0, 1, 2) if (tier == 'quick' or len(cv) == 4) else (0, 1, 2, 3)): add(op=o, sv=sv, allow=1, lens=(L0, len(cv)), cvals={'1': cv})          # 3 symbolic bytes x 2^31-1: unknown after 120 s
                     add(op=o, sv=sv, allow=1, lens=(len(cv), 1), cvals={'0': cv})
                 combos = [(1, 1), (0, 0)]
             for lens in combos:
